@@ -30,6 +30,9 @@ type SubSpec struct {
 	Gated       bool       `json:"gated,omitempty"`    // Send needs credit from grant steps (else it always passes)
 	PElement    bool       `json:"pelement,omitempty"` // the prefix uses the deprecated string elements
 	Deadline    bool       `json:"deadline,omitempty"` // the stream's context carries a (distant) RPC deadline
+	// HalfClose: the client half-closes its sending side right after its request (legal gRPC: Send, CloseSend, Recv...);
+	// ONCE and STREAM only.
+	HalfClose bool `json:"half_close,omitempty"`
 	// First: what the client sends first instead of the well-formed request: "" (the request), "eof" (half-close
 	// before any request), "poll" (a Poll trigger), "noprefix" (a SubscriptionList without prefix), "notarget"
 	// (prefix without target), "empty" (a request with no arm). The RPC then ends at once: only the ACL clauses apply.
@@ -175,7 +178,7 @@ var profiles = map[string]profile{
 		parks:   []string{"", "sub.pre-register", "sub.registered", "sub.walk.begin", "sub.walk.end", "coalesce.next.empty"}},
 	"C05": {minTargets: 1, maxTargets: 3, modes: []string{"once", "poll", "poll"}, gatedPct: 20, maxSteps: 24, maxSubs: 3, preload: 5, starPct: 35, pickPct: 30, bulkPct: 5, bulkNs: []int{5, 33, 70, 130, 257, 300, 520},
 		weights: map[string]int{"w": 6, "start": 6, "release": 3, "poll": 6, "eof": 2, "grant": 2, "drain": 2, "sleep": 2, "wrace": 2},
-		wkinds:  []string{"noti", "noti", "noti", "noti", "reset", "remove", "add"},
+		wkinds:  []string{"noti", "noti", "noti", "noti", "noti", "noti", "noti", "noti", "reset", "reset", "remove", "remove", "add", "add", "readd"},
 		parks:   []string{"", "", "sub.walk.begin", "sub.walk.end", "coalesce.next.empty", "coalesce.next.empty"}},
 	"C07": {minTargets: 2, maxTargets: 4, modes: []string{"stream", "stream", "once", "poll"}, acl: true, gatedPct: 15, maxSteps: 30, maxSubs: 4, preload: 4, starPct: 60, pickPct: 30, timeout: true, bulkPct: 3, bulkNs: []int{5, 40, 70}, viaPct: 10, firstPct: 8,
 		weights: map[string]int{"w": 14, "start": 6, "release": 3, "relw": 2, "poll": 2, "grant": 2, "check": 2, "drain": 2, "sleep": 2, "aclflip": 2, "eof": 1},
@@ -183,7 +186,7 @@ var profiles = map[string]profile{
 		parks:   []string{"", "", "sub.registered", "sub.walk.begin"}},
 	"C08": {minTargets: 1, maxTargets: 2, modes: []string{"stream"}, gatedPct: 70, maxSteps: 36, maxSubs: 3, preload: 3, timeout: true, starPct: 30, pickPct: 60, aclPct: 25, bulkPct: 5, bulkNs: []int{5, 33, 40, 70, 130},
 		weights: map[string]int{"w": 18, "start": 4, "grant": 6, "sleep": 4, "check": 3, "drain": 3, "wrace": 2},
-		wkinds:  []string{"noti", "noti", "noti", "noti", "noti", "noti", "noti", "noti", "noti", "noti", "noti", "noti", "noti", "noti", "reset"},
+		wkinds:  []string{"noti", "noti", "noti", "noti", "noti", "noti", "noti", "noti", "noti", "noti", "noti", "noti", "noti", "noti", "reset", "updmeta", "updmeta", "sync"},
 		parks:   []string{""}},
 	"C14": {minTargets: 2, maxTargets: 4, modes: []string{"stream"}, gatedPct: 30, maxSteps: 30, maxSubs: 4, preload: 4, starPct: 35, pickPct: 30, bulkPct: 4, bulkNs: []int{5, 40, 70},
 		weights: map[string]int{"w": 14, "start": 6, "release": 2, "relw": 2, "check": 2, "drain": 3, "rmadd": 2, "wrace": 3, "grant": 2, "cancel": 1, "eof": 1},
@@ -378,7 +381,15 @@ func genSub(pr profile, targets, users int) func(t *rapid.T) SubSpec {
 		if where == "path+pelems" && len(s.PElems) == 0 {
 			s.PElems = genElems(t, 1, 1, false)
 		}
+		if s.Mode != "poll" {
+			s.HalfClose = rapid.IntRange(0, 7).Draw(t, "half-close") == 6
+		}
 		np := rapid.IntRange(1, 3).Draw(t, "npaths")
+		if pr.acl && rapid.IntRange(0, 9).Draw(t, "empty-list") == 9 {
+			// a SubscriptionList without subscriptions (C07 profile only: a STREAM that registers nothing is never
+			// told of its target's removal, which C14 does not speak about)
+			np = 0
+		}
 		for i := 0; i < np; i++ {
 			p := PathSpec{Elems: genElems(t, 0, rapid.SampledFrom([]int{0, 1, 1, 2, 3}).Draw(t, "maxlen"), true)}
 			if i > 0 && len(s.Paths[i-1].Elems) > 0 && rapid.IntRange(0, 5).Draw(t, "sibling") < siblingOdds() {
@@ -522,7 +533,10 @@ func genBurstScenario(t *rapid.T) *Scenario {
 	}
 	single := func(label string) *WOp {
 		w := &WOp{Kind: "noti", T: rapid.IntRange(0, sc.Targets-1).Draw(t, label+"t")}
-		switch rapid.IntRange(0, 10).Draw(t, label+"shape") {
+		switch rapid.IntRange(0, 11).Draw(t, label+"shape") {
+		case 11:
+			// the collector's periodic metadata refresh (every changed metadata leaf of every target is fed)
+			w.Kind = rapid.SampledFrom([]string{"updmeta", "updmeta", "sync"}).Draw(t, label+"metakind")
 		case 10:
 			// an atomic container (one leaf carrying 2-3 updates) reported again and again under one prefix
 			w.Atomic = true
